@@ -43,7 +43,7 @@ CLAIMS = {
          "7/C16", "contracts over the concrete representation (two machine words + handle) with 64-bit wrap modelled exactly"),
  'C17': ("Modf functional contract (integ+frac == d, exponent signs, either output nil, outputs may alias the receiver), Int64 with the wrapped cast proved correct, SetInt64/New/SetFinite exact.",
          "7/C17", "contract postconditions incl. loop invariant for the x10 loop"),
- 'C18': ("The sequential frame conditions from which data-race freedom follows: Context methods and read-only Decimal methods write only their destination and fresh memory, no function under contract assigns a package-level variable or writes into the shared tables and constants (every written reference must be `writable`, i.e. outside the global region); schedules are not explored (stated meta-theorem).",
+ 'C18': ("The sequential frame conditions from which data-race freedom follows: Context methods and read-only Decimal methods write only their destination and fresh memory, every store instruction and every callee effect is proved to hit fresh memory or the function's assigns set (so not even a write that is undone before returning touches the Context, an operand or a shared table), no function under contract assigns a package-level variable (every written reference must be `writable`, i.e. outside the global region); schedules are not explored (stated meta-theorem).",
          "7/C18", "frame obligations (class F); schedule quantifier by meta-theorem"),
  'C19': ("NumDigits equals the decimal digit count for both signs (table invariant for <=128 bits, one assumed float lemma above); Reduce preserves the value, strips every trailing zero and reports a count that depends on the operand only.",
          "7/C19", "contract postconditions, table invariants, loop invariants"),
